@@ -322,6 +322,21 @@ def contract_persist_msg(I, args, kwargs):
     return None
 
 
+def contract_find_seq_no(I, args, kwargs):
+    """Journaler.find_seq_no on a frame produced by Codec.encode / received from the wire: the MsgSeqNum of its
+    frame view (C13 find_seq_no.is_msgseqnum), FIXMessageError when the frame carries none."""
+    msg = args[-1]
+    fr = frame_of(I, msg)
+    if fr is None:
+        raise Outside("find_seq_no of bytes without a frame view")
+    if isinstance(fr.has_seq, SBool):
+        if not I.ctx.branch(fr.has_seq):
+            I.raise_repo("asyncfix.errors.FIXMessageError")
+    elif not fr.has_seq or fr.seq is None:
+        I.raise_repo("asyncfix.errors.FIXMessageError")
+    return fr.seq
+
+
 def contract_set_seq_num(I, args, kwargs):
     jr, session = args[0], args[1]
     nout = args[2] if len(args) > 2 else kwargs.get("next_num_out")
@@ -410,6 +425,7 @@ def session_cfg(extra_contracts=None, inline_resend=False):
         cfg.contracts["asyncfix.codec.Codec.encode"] = contract_encode
         cfg.contracts["asyncfix.journaler.Journaler.persist_msg"] = contract_persist_msg
         cfg.contracts["asyncfix.journaler.Journaler.set_seq_num"] = contract_set_seq_num
+        cfg.contracts["asyncfix.journaler.Journaler.find_seq_no"] = contract_find_seq_no
         # __init__ loads the session from the journal: the harness supplies the (symbolic) session it returns
         cfg.contracts["asyncfix.journaler.Journaler.create_or_load"] = lambda I, a, k: I.ctx.ghost["init_session"]
         for h in ("on_message", "on_connect", "on_disconnect", "on_logon", "on_logout", "on_state_change"):
@@ -570,10 +586,10 @@ def eview(I, conn, outcome=None):
     for f in v["W"]:
         if isinstance(f, Frame):
             mt = f.mtype.value if hasattr(f.mtype, "value") else f.mtype
-            W.append(V(type=mt, seq=f.seq, possdup=f.possdup, opaque=False,
+            W.append(V(type=mt, seq=f.seq, possdup=f.possdup, opaque=False, new=f.new_number,
                        fields={str(k.value if hasattr(k, "value") else k): x for k, x in f.fields.items()}))
         else:
-            W.append(V(opaque=True, type=None, seq=None, possdup=None, fields={}))
+            W.append(V(opaque=True, type=None, seq=None, possdup=None, new=None, fields={}))
     v["W"] = W
     def int_term(x):
         if isinstance(x, SStr):
